@@ -881,7 +881,7 @@ def run(ctx):
     ctx.cov['exhaustive'] = True
     # (c) random
     rng = ctx.rng('random')
-    rcases = [random_case(rng) for _ in range(30000 if thorough else 4000)]
+    rcases = [random_case(rng) for _ in range(30000 if thorough else 6000)]
     pairs += differential_stream(ctx, rep, 'random', rcases, mism, keep_every=(20 if thorough else 3))
     # (d) interleavings
     thread_stream(ctx, rep, mism, thorough)
